@@ -109,8 +109,68 @@ def sensitivity(only: list[str] | None, budget: float) -> int:
     return missed
 
 
+def run_seeded(sdir: str, checks: list[str], budget: float, workers: int) -> list[tuple[str, int, str]]:
+    """Apply seeded/<id>/patch.diff to a scratch copy of /repo HEAD and run the given quick checks against it."""
+    sid = os.path.basename(sdir)
+    dst = f"/var/tmp/verif_seedreg_{sid}_{os.getpid()}"
+    shutil.rmtree(dst, ignore_errors=True)
+    os.makedirs(dst)
+    out = []
+    try:
+        ar = subprocess.run("git -C /repo archive HEAD | tar -x -C " + dst, shell=True, capture_output=True, text=True)
+        pa = subprocess.run(["patch", "-p1", "-s", "-d", dst, "-i", os.path.join(sdir, "patch.diff")], capture_output=True, text=True)
+        if ar.returncode != 0 or pa.returncode != 0:
+            return [("-", -1, "patch does not apply: " + (ar.stderr + pa.stdout + pa.stderr)[-200:])]
+        for c in checks:
+            r = subprocess.run(
+                [PY, "-B", "-m", "simv.cli", c, "--tier", "quick", "--budget", str(budget), "--workers", str(workers)],
+                cwd=VERIF, env=_env("0", dst), capture_output=True, text=True, timeout=3000,
+            )
+            tags = sorted({l.split("tag=")[1].split()[0] for l in r.stdout.splitlines() if "tag=" in l and "KNOWN-FINDING" not in l})
+            out.append((c, r.returncode, ",".join(tags)))
+    except Exception as e:  # noqa: BLE001
+        out.append(("-", -1, repr(e)[:200]))
+    finally:
+        shutil.rmtree(dst, ignore_errors=True)
+    return out
+
+
+def seeded_regression(only: list[str] | None, budget: float) -> int:
+    """Every change under seeded/: S* (breaking) must be reported by the property's own quick check, B* (behaviour-
+    preserving) must pass every check recorded in its meta.json. The whole-machinery regression after any change to /verif."""
+    root = os.path.join(VERIF, "seeded")
+    dirs = sorted(d for d in os.listdir(root) if os.path.isfile(os.path.join(root, d, "patch.diff")))
+    if only:
+        dirs = [d for d in dirs if any(d.startswith(o) or o in d for o in only)]
+    bad = 0
+
+    def one(d: str):
+        meta = json.load(open(os.path.join(root, d, "meta.json")))
+        if d.startswith("B"):
+            checks = [c["check"] for c in meta.get("checks_run", [])]
+        else:
+            checks = [meta["property"]]
+        return d, run_seeded(os.path.join(root, d), checks, budget, 8)
+
+    with ThreadPoolExecutor(max_workers=2) as ex:
+        for d, res in ex.map(one, dirs):
+            if d.startswith("B"):
+                ok = all(rc == 0 for _, rc, _ in res)
+                status = "QUIET" if ok else "ALARM"
+            else:
+                ok = any(rc == 1 for _, rc, _ in res) and all(rc in (0, 1) for _, rc, _ in res)
+                status = "CAUGHT" if ok else "MISSED"
+            bad += 0 if ok else 1
+            print(f"seeded {d} {status} " + "; ".join(f"{c}: exit {rc} {t}" for c, rc, t in res), flush=True)
+    print(f"seeded regression: {len(dirs) - bad}/{len(dirs)} as expected")
+    return bad
+
+
 def main(argv: list[str]) -> int:
     what = argv[0] if argv else "all"
+    if what == "seeded":
+        only = [a for a in argv[1:] if not a.startswith("--")] or None
+        return 4 if seeded_regression(only, float(os.environ.get("VERIF_SEEDED_BUDGET", "40"))) else 0
     claimed = json.load(open(os.path.join(VERIF, "tools", "claimed.json")))
     rc = 0
     if what in ("determinism", "all"):
